@@ -393,6 +393,18 @@ pub fn check(args: &CheckArgs) -> i32 {
             }
         }
     }
+    // triage help: HQSIM_ALLOC_DUMP=<signature substring> lists the runs that hit it
+    if let Ok(pat) = std::env::var("HQSIM_ALLOC_DUMP") {
+        let mut n = 0;
+        for r in &runs {
+            for (p, sig, msg, op) in &r.findings {
+                if sig.contains(&pat) && n < 40 {
+                    n += 1;
+                    println!("DUMP run={} seed={} {p} {sig} op={op}: {msg}", r.index, r.seed);
+                }
+            }
+        }
+    }
     let mut exit = 0;
     let mut known_hit: Vec<String> = Vec::new();
     let mut violations: Vec<serde_json::Value> = Vec::new();
